@@ -49,19 +49,31 @@ exit $rc
 
 CFG = dict(
     gen=[dict(tool="facts", mode="c13.locks", out="LockFacts.lean", args=[])],
-    theorems=[],          # PLACEHOLDER — owned by the C13 property owner: names in namespace PolyVerif.C13
+    theorems=["lock_facts_well_locked", "wellLocked_sound", "mutex_invariant", "linearizable", "linearizable'",
+              "artifact_snapshot", "paramData_snapshot", "completed_before_is_visible", "snapshot_params",
+              "spec_depends_on_statics", "witness_check_sound", "micro_uninterrupted", "unlocked_mixes_states",
+              "unlocked_not_linearizable", "locked_never_bad"],
     streams=[dict(name="c13", n=dict(quick=1500, thorough=40000), timeout=dict(quick=600, thorough=3600))],
     extras=[dict(name="race-detector (go build -race; stream c13; quick: GOMAXPROCS varied per history; thorough: also pinned 1,2,16)",
                  cmd=["bash", "-c", RACE_C13, "race_c13", "{work}", "{seed}", "{tier}"],
                  tiers=["quick", "thorough"], timeout=1800, kind="data-race")],
-    trusted=T_COMMON + [
-        # PLACEHOLDER — owner fills in the trusted-base text for C13
-        "engine F extractor /verif/go/facts/c13.go (syntactic; fails on any construct it does not recognise)",
-    ],
-    residue=[
-        # PLACEHOLDER — owner fills in what is not a theorem
-    ],
-    assumptions=[
-        # PLACEHOLDER — owner fills in
-    ],
+    trusted=[T_COMMON[1], T_COMMON[2],
+             "engine F extractor /verif/go/facts/c13.go (syntactic, go/parser only; fails on any construct it does not recognise)",
+             "hand-written models PolyVerif/Model/Linz.lean, Model/Nodes.lean (tied by streams c13 and c11)",
+             "sync.Mutex, the Go memory model, the race detector",
+             "the driver's linearization search is NOT trusted: its result is validated by the verified checkWitness"],
+    residue=["data-race freedom is the race detector's verdict on the generated schedules, not a theorem",
+             "that the Go functions behave like the client program of Linz.Step (idle/invoked/holding/executed/unlocked) rests on the "
+             "lock facts (syntactic) and the correspondence, not on a semantics of Go",
+             "HTTP plumbing (app_server*.go, saver.Save() after an update, websocket hub) is not modelled; the three entry points are what the handlers call",
+             "graph edits (ConnectNodes, CreateNode, DeleteNode, SetNodeAsProducer, ApplyAppSchema) concurrent with the three calls are outside the "
+             "property and the model: they mutate i.producers / i.nodeIDs without producerLock; the whitelisted pre-lock producers lookup is "
+             "sound only because none of the three entry points writes that map",
+             "Instance.ModelVersion() reads movelVersion without the lock (app_server.go:228, room/hub.go:176) while UpdateParameter "
+             "increments it under the lock: a race outside the three entry points (source: 'TODO: Make thread safe')",
+             "malformed JSON in UpdateParameter, unknown node ids / producer names (panic) are not generated; liveness is not claimed",
+             "an unlocked ParameterData alone is caught by the lock facts and the race detector, not by the linearizability oracle "
+             "(a single-word read stays linearizable in every recorded history)",
+             "C11's guard (acyclic graph; processors read all their inputs) is inherited"],
+    assumptions=["wiring is fixed during a concurrent history", "sync.Mutex provides mutual exclusion and happens-before"],
 )
